@@ -215,12 +215,18 @@ def run(ck):
     # one observation only: still one row, with its axis values
     one = Table(1, streams=streams, concrete={k: v[:1] for k, v in conc.items()})
     src_one = make_config_source([dict(window=(None, None), tests={'temp': ['gross'], '9 lives-x': ['gross'], 'sal.t': ['valid']})])
-    for fe, table, tname in [(f, tb, tn) for f in ('numpy', 'pandas') for tb, tn in ((table, ''), (ztable, '[all-zero axes]'), (one, '[single row]'))]:
-        run0 = run_frontend(r, fe, table, src if table is not one else src_one)
+    ctx_one = [dict(window=(None, None), tests={'temp': ['gross'], '9 lives-x': ['gross'], 'sal.t': ['valid']})]
+    # one configuration for several deployments applied to a record of the later one: the first window listed holds no row of the input
+    etable = Table(5, streams=streams, concrete=conc)
+    ctx_empty_first = [dict(window=(t(10), t(20)), tests={'temp': ['gross'], 'sal.t': ['valid']}),
+                       dict(window=(t(1), t(4)), tests={'temp': ['gross', 'spike'], '9 lives-x': ['flat'], 'sal.t': ['valid']})]
+    setups = {id(table): (contexts, src), id(ztable): (contexts, src), id(one): (ctx_one, src_one), id(etable): (ctx_empty_first, make_config_source(ctx_empty_first))}
+    for fe, table, tname in [(f, tb, tn) for f in ('numpy', 'pandas') for tb, tn in ((table, ''), (ztable, '[all-zero axes]'), (one, '[single row]'), (etable, '[first window empty]'))]:
+        run0 = run_frontend(r, fe, table, setups[id(table)][1])
         if run0.error is not None:
             ck.violate('C19.save', f'{fe}:stream-raises', f'{fe}: the stream raises {run0.error.exc}')
             continue
-        for c in (contexts if table is not one else [dict(window=(None, None), tests={'temp': ['gross'], '9 lives-x': ['gross'], 'sal.t': ['valid']})]):
+        for c in setups[id(table)][0]:
             for sid, keys in c['tests'].items():
                 for k in keys:
                     COVERAGE.setdefault((id(table), sid, menu[k][1]), set()).update(table.rows_in(c['window']))
